@@ -5,10 +5,10 @@ p=$1; n=$2; crates=$3
 cd "$(dirname "$0")/.."
 for i in 1 2; do
   k=$((n+i-1)); d=seeded/$p-$k; mkdir -p $d
-  cp /tmp/wt-r8-$p/SEED/$i/patch.diff /tmp/wt-r8-$p/SEED/$i/demo.rs /tmp/wt-r8-$p/SEED/$i/notes.md $d/ 2>/dev/null
+  cp /tmp/wt-${ROUND:-r8}-$p/SEED/$i/patch.diff /tmp/wt-${ROUND:-r8}-$p/SEED/$i/demo.rs /tmp/wt-${ROUND:-r8}-$p/SEED/$i/notes.md $d/ 2>/dev/null
 done
-[ -f /tmp/wt-r8-$p/SEED/observations.md ] && cp /tmp/wt-r8-$p/SEED/observations.md seeded/$p-$n/observations.md
-git -C /repo worktree remove --force /tmp/wt-r8-$p
+[ -f /tmp/wt-${ROUND:-r8}-$p/SEED/observations.md ] && cp /tmp/wt-${ROUND:-r8}-$p/SEED/observations.md seeded/$p-$n/observations.md
+git -C /repo worktree remove --force /tmp/wt-${ROUND:-r8}-$p
 for i in 1 2; do
   k=$((n+i-1)); d=seeded/$p-$k
   dest=$(grep -m1 -oE 'dest: *[^ ]+' $d/demo.rs | sed 's/dest: *//')
